@@ -1071,16 +1071,20 @@ class Sandbox:
         """
         Queues the given value as the next arguments to the `input` function.
         """
-        if inputs is None:
+        if inputs is None or not isinstance(self.inputs, list):
+            # Nothing to keep (a function was supplying the inputs, if any)
             self.inputs = []
+        if isinstance(inputs, (list, tuple)):
+            # Before clearing: this may be the queue itself (get_input())
+            inputs = [str(value) for value in inputs]
         if clear:
             self.inputs.clear()
         if isinstance(inputs, str):
             self.inputs.append(inputs)
         elif isinstance(inputs, (int, float, bool)):
             self.inputs.append(str(inputs))
-        elif isinstance(inputs, (list, tuple)):
-            self.inputs.extend([str(value) for value in inputs])
+        elif isinstance(inputs, list):
+            self.inputs.extend(inputs)
         elif inputs is not None:
             self.inputs = inputs
         return self
